@@ -34,7 +34,10 @@ Theorem c10_guarded_setter_in_callback_changes_nothing : forall s o cb c,
   snd (call1 s o (option_map (erase cbop cbop_guarded) cb) c) = snd (call1 s o cb c).
 Proof. exact guarded_in_callback_changes_nothing. Qed.
 
-(* [F] (repaired code) once the call has ended, by return or by ANY exception (parameters rejected, infeasible
+(* [F; by the shape of the model as far as the algorithms are concerned: the oracles cannot touch inUse, only the
+   entry points' control flow (scope guard) can -- that friend classes do not write isInUse_ is C03's table theorem
+   c03_algorithms_write_only_through_exports plus the tie]
+   (repaired code) once the call has ended, by return or by ANY exception (parameters rejected, infeasible
    legalization, callback throwing at any invocation, size update detected, any internal error), the flag is clear
    and every setter whose arguments pass its own tests is accepted *)
 Theorem c10_in_use_cleared_after_call : forall s o cb c,
@@ -45,7 +48,7 @@ Proof. exact cleared_after_any_outcome. Qed.
 
 (* [R] the same statement for the entry points of the snapshot (isInUse_ = false only on the normal path): refuted --
    rejected parameters leave the circuit busy and setRows({}) is refused afterwards.  This is finding F9, repaired by
-   the `fix:` commit on agent/C10; ./check C10 reproduces it on a tree without the repair. *)
+   the `fix:` commit 265ce05 on /repo main (3e96216 on agent/C10); ./check C10 reproduces it on a tree without the repair. *)
 Theorem c10_in_use_cleared_after_call_orig_refuted :
   exists s o cb c st,
     inUse c = false /\ consistent c = true /\ snd (call1_orig s o cb c) = Some EParams /\
@@ -54,7 +57,11 @@ Theorem c10_in_use_cleared_after_call_orig_refuted :
     fst (apply_setter (fst (fst (call1_orig s o cb c))) st) = RefusedInUse.
 Proof. exact cleared_after_call_orig_refuted. Qed.
 
-(* [F] a legalization that failed (stage legalize or detailed; infeasible or parameters rejected) has left every
+(* [F, true by construction: o_leg : acirc -> option (list legcell) cannot write to the circuit, so this does not
+   prove that Legalizer::fromIspdCircuit / run never write before throwing -- the tie and C03's access table
+   carry that.  Stated for e in {ELegalizer, EParams} only: EExport keeps its partial writes, is modelled, is
+   excluded here and is not proved unreachable]
+   a legalization that failed (stage legalize or detailed; infeasible or parameters rejected) has left every
    vector of the circuit as it was and ran no callback: after_hard EParams c = c (nothing touched), after_hard
    ELegalizer c = c with the two "update seen" flags reset *)
 Theorem c10_failed_legalize_unchanged : forall s o cb c e,
